@@ -111,6 +111,15 @@ func BuildVariant(b *Base, v Variant) (doc *yaml.Node, mutated *yaml.Node) {
 		}
 		return doc, node
 	}
+	if mu.Op == "samelabel" {
+		for _, o := range b.Sites {
+			if o.Class == "label" && o.Node != s.Node && o.Node.Kind == yaml.ScalarNode && o.Node.Value != "" && o.Node.Value != s.Node.Value {
+				node.Value = o.Node.Value
+				break
+			}
+		}
+		return doc, node
+	}
 	if mu.Op == "orckey" {
 		k := int(mu.Frag[0] - '0')
 		n := 0
